@@ -170,6 +170,17 @@ opened("C08-number-split-by-white-space", "C08",
 opened("C08-slash-star-as-multiply", "C08",
        "'/ * 2' is not an expression (after the operator '/' a '*' is a name test, XPath 1.0 section 3.7) but BuildExpr accepts it and evaluates (/) * 2",
        expect("<r/>", "/ * 2", {"t": "reject"}))
+opened("C20-m-newline-in-comment-or-pi", "C20",
+       "-m replaces every newline of the encoded record by the text '&#10;', also inside comments and processing "
+       "instructions where references are not recognised: such a node does not parse back to itself (inherent in the "
+       "one-line record format; there is no newline-free spelling of a comment that contains one)",
+       witness="known/C20-m-newline-in-comment-or-pi.json")
+opened("C20-m-attribute-namespace-in-pi-target", "C20",
+       "-m prints an attribute node as the processing instruction <?attribute:URI:local value?>; a namespace URI with "
+       "characters that are not name characters (xml:lang: http://www.w3.org/XML/1998/namespace) makes the encoder "
+       "refuse the target, and the record - with all later records of that file - is lost (needs a different notation, "
+       "not a small repair)",
+       witness="known/C20-m-attribute-namespace-in-pi-target.json")
 
 
 def main():
